@@ -101,7 +101,7 @@ def enumerate_cases(tier):
             sources.append({"model": {"vb": [0.0, 0.0, 100.0, 100.0], "nodes": nodes}, "cps": [0x1F600 + i]})
         cfg = {"upem": 1024, "ascender": 950, "descender": -250, "width": 1275, "linegap": 0, "color_format": fmt, "transform": [1, 0, 0, 1, 0, 0], "reuse_tolerance": 0.1,
                "clipbox_quantization": None, "keep_glyph_names": True, "pretty_print": False}
-        yield {"kind": "nano", "fmt": fmt, "vc": {"cfg": cfg, "sources": sources}, "flags": {"bitmaps": False, "colr_version": 1, "keep_glyph_names": True}}
+        yield {"kind": "nano", "fmt": fmt, "vc": {"cfg": cfg, "sources": sources}, "flags": {"bitmaps": fmt in ("cff_colr_1", "glyf_colr_0"), "colr_version": 1, "keep_glyph_names": True}}
     rows = list(c13.fixed_rows())
     for i, third in enumerate(rows):
         third = dict(third, interleave=bool(i % 2))
@@ -343,6 +343,12 @@ def judge(case):
                     box = (mt.BearingX, mt.BearingY - mt.height, mt.BearingX + mt.width, mt.BearingY)
                     shape_kind = "square" if abs(mt.width - mt.height) <= 1 else "fixed"
                     c14.judge_placement(v, cfg, "cbdt", mt.width, mt.height, ppem, box, mt.Advance, fout["hmtx"][gb][0], shape_kind, {"text": t})
+    if flags["bitmaps"] and "CBLC" in fout:
+        # a renderer takes the first strike of the size it wants: bitmaps of one size spread over several strikes are, for
+        # every glyph outside the first of them, as good as missing
+        ppems = [(s.bitmapSizeTable.ppemX, s.bitmapSizeTable.ppemY) for s in fout["CBLC"].strikes]
+        if len(set(ppems)) != len(ppems):
+            v.fail("bitmap-strikes", "several strikes of one size", {"ppems": ppems, "glyphs per strike": [len(sd) for sd in fout["CBDT"].strikeData]})
     if flags["keep_glyph_names"] or fin["post"].formatType == 2 and flags["keep_glyph_names"]:
         if fin["post"].formatType == 2:
             d = diff_sem(layout_sem(fin), layout_sem(fout))
